@@ -126,6 +126,7 @@ SIMPLE = [
     S("continue", "continue", needs_loop=True),
 ]
 
+
 COMPOUND = [
     S("if", "if E({e1}, {p}) % 2:", bodies=1),
     S("if-else", "if E({e1}, {p}) % 2:", bodies=2, body_heads=["else:"]),
@@ -144,6 +145,7 @@ COMPOUND = [
     S("with-tuple", "with CM2(E({e1}, {p})) as ({n1}, {n2}):", bodies=1),
     S("with-noas", "with CM(E({e1}, {p})):", bodies=1, tier="thorough"),
     S("with-swallow", "with SWALLOW(E({e1}, {p})) as {n1}:", bodies=1, tier="thorough"),
+    S("try-nameerror", "try:", bodies=2, body_heads=["except NameError:"], special=True),
 ]
 FORMS = {f.name: f for f in SIMPLE + COMPOUND}
 
@@ -153,7 +155,7 @@ def _allowed(form, ctx, tier, only):
         return False
     if form.special and only is None:
         return False
-    if form.tier == "thorough" and tier != "thorough":
+    if form.tier == "thorough" and tier != "thorough" and only is None:
         return False
     if form.needs_loop and not ctx.loop:
         return False
